@@ -7,6 +7,10 @@ SPEC = {
                  'EV.HeaderCache.s9_init',
                  'EV.HeaderCache.F17_counterexample', 'EV.HeaderCache.F18_counterexample',
                  'EV.HeaderCache.F19_counterexample',
+                 'EV.HeaderCache.F24_counterexample',
+                 'EV.HeaderCache.C11_reply_safe', 'EV.HeaderCache.C11_reply_header', 'EV.HeaderCache.C11_reply_chunk',
+                 'EV.HeaderCache.C11_plain_reply', 'EV.HeaderCache.C11_header_started', 'EV.HeaderCache.rootFromProof_inj',
+                 'EV.HeaderCache.C11_header_progress', 'EV.HeaderCache.C11_header_progress_reachable',
                  'EV.Merkle.bar_root', 'EV.Merkle.bar_fold', 'EV.Merkle.tsc_spec', 'EV.Merkle.cache_correct',
                  'EV.TxCache.seen_sound', 'EV.TxCache.C11_tx_safe', 'EV.TxCache.C11_tx_fold', 'EV.TxCache.C11_tx_unchanged',
                  'EV.TxCache.C10_tx_hit_current', 'EV.TxCache.C10_tx_caches', 'EV.TxCache.ref_window',
@@ -20,6 +24,16 @@ SPEC = {
     'entry': {'system': 'run_proofs'},
     'design_ref': 'DESIGN.md §6 C11',
     'assumptions': [
+        'header-proof replies: headers are modelled by their hashes (coin.header_hash, the leaves of the tree); the '
+        'statement "the header of the reply IS the header at that height of the chain proven" (C11_reply_header) needs '
+        'the hash to have no collision a fold could meet (predicate Cancel: H e a = H e b -> a = b and H a e = H b e -> '
+        'a = b; implied by collision-freedom of SHA-256d, witnessed by the free term constructor); without it '
+        'C11_reply_safe still gives: the reply folds, and branch and root are those of ONE chain visible during the request',
+        'block.headers: the proof is of the LAST header; that the other headers of the reply belong to the same chain '
+        '(C11_reply_chunk) needs chains to be linked by their hashes (hypothesis hlink: equal block hash at a height => '
+        'equal hashes below; true of real chains - each header contains its predecessor\'s hash - and of the suite\'s '
+        'fresh names); MAX_CHUNK_SIZE clamp, argument validation and cost accounting of the two handlers are C16/C17\'s '
+        '(EV.Rpc), not modelled here',
         'atomicity granularity of the header-proof model: event-loop code between two awaits is atomic (one thread); a '
         'worker-thread read (DB.read_headers) is one atomic step that sees DB.state.height as it is then; a back-out is cut, '
         'per block, into its two effects on readers - DB.state lowered (one attribute store, in the worker thread of '
@@ -68,7 +82,7 @@ SPEC = {
                   'caches, LRU evictions, back-outs and advances cut into their effects on readers, the reorg task as a later event: '
                   'C11_tx_safe - every answer is computed from the tx list of a block that was at that height on a chain visible '
                   'between the request\'s start and its answer, composed with C12 in C11_tx_fold; C10_tx_caches at quiescence; '
-                  'counterexamples for the unfixed variants incl. F20).  Header half: the Lean model has ANY NUMBER of '
+                  'counterexamples for the unfixed variants incl. F20).  Header half (requests are the WHOLE block.header / block.headers handlers: header read, proof, consistency check and re-read; C11_reply_safe / C11_reply_header: the reply as a whole folds and its header is the header of the chain proven; C11_header_progress; F24 counterexample): the Lean model has ANY NUMBER of '
                   'concurrent block.header(height, cp) requests, each a program counter over every await of '
                   'MerkleCache.branch_and_root/_extend_to/_level_for with each read cut into issue / worker-thread '
                   'perform against the hashes visible then / deliver, back-outs cut, per block, into their two effects (DB.state lowered by the worker thread, header_mc.truncate by the event-loop thread) in the order measured '
